@@ -75,6 +75,60 @@ func rnd(seed uint64, g, i int) *gen.DetReader {
 
 func hx(b []byte) string { return hex.EncodeToString(b) }
 
+// Shared inputs. Every byte slice that several goroutines hand to the library at
+// once (identities, digests, signatures, ciphertexts, keys, AAD) is a copy with
+// spare capacity behind it, filled with a pattern: a callee that appends to its
+// argument (`append(uid, hid)`) or scribbles behind it writes to memory all the
+// other goroutines pass too - the race detector reports the write, results go
+// wrong when the appended bytes differ per call, and checkShared sees the
+// changed pattern afterwards.
+type sharedBuf struct {
+	full []byte // len = cap
+	n    int
+	orig []byte
+}
+
+var (
+	sharedMu  sync.Mutex
+	sharedReg []sharedBuf
+)
+
+const spareLen = 24
+
+func shared(b []byte) []byte {
+	full := make([]byte, len(b)+spareLen)
+	copy(full, b)
+	for i := len(b); i < len(full); i++ {
+		full[i] = 0xA5 ^ byte(i)
+	}
+	sharedMu.Lock()
+	sharedReg = append(sharedReg, sharedBuf{full, len(b), append([]byte{}, b...)})
+	sharedMu.Unlock()
+	return full[:len(b):len(full)]
+}
+
+func resetShared() {
+	sharedMu.Lock()
+	sharedReg = nil
+	sharedMu.Unlock()
+}
+
+func checkShared() error {
+	sharedMu.Lock()
+	defer sharedMu.Unlock()
+	for _, sb := range sharedReg {
+		if !bytes.Equal(sb.full[:sb.n], sb.orig) {
+			return fmt.Errorf("a shared input (%d bytes, %x...) was modified by the library", sb.n, sb.orig[:min(8, sb.n)])
+		}
+		for i := sb.n; i < len(sb.full); i++ {
+			if sb.full[i] != 0xA5^byte(i) {
+				return fmt.Errorf("the library wrote into the spare capacity behind a shared input (%d bytes, %q...): offset +%d = %#x", sb.n, sb.orig[:min(12, sb.n)], i-sb.n, sb.full[i])
+			}
+		}
+	}
+	return nil
+}
+
 // ---------------------------------------------------------------- kinds
 
 type sm2Obj struct {
@@ -86,6 +140,8 @@ type sm2Obj struct {
 	hash    []byte
 	sig     []byte
 	peerPub *ecdsa.PublicKey
+	uidA    []byte
+	uidB    []byte
 }
 
 func newSM2Obj(seed uint64) any {
@@ -101,10 +157,12 @@ func newSM2Obj(seed uint64) any {
 	// artefacts made with an independent copy of the key so the shared key stays cold
 	cp := must(sm2.NewPrivateKey(d))
 	msg := gen.Fill(gen.Mix(seed, 3), 40)
-	o.ct = must(sm2.Encrypt(gen.NewDetReader(seed+9), &cp.PublicKey, msg, nil))
-	o.ctASN1 = must(sm2.EncryptASN1(gen.NewDetReader(seed+10), &cp.PublicKey, msg))
-	o.hash = gen.Fill(gen.Mix(seed, 4), 32)
-	o.sig = must(sm2.SignASN1(gen.NewDetReader(seed+11), cp, o.hash, nil))
+	o.ct = shared(must(sm2.Encrypt(gen.NewDetReader(seed+9), &cp.PublicKey, msg, nil)))
+	o.ctASN1 = shared(must(sm2.EncryptASN1(gen.NewDetReader(seed+10), &cp.PublicKey, msg)))
+	o.hash = shared(gen.Fill(gen.Mix(seed, 4), 32))
+	o.sig = shared(must(sm2.SignASN1(gen.NewDetReader(seed+11), cp, o.hash, nil)))
+	o.uidA = shared([]byte("alice"))
+	o.uidB = shared([]byte("bob"))
 	return o
 }
 
@@ -124,11 +182,17 @@ var kindSM2 = kind{name: "sm2-key", setup: newSM2Obj, ops: []op{
 	{"sign-sm2opt", true, func(obj any, g, i int, seed uint64) (string, error) {
 		o := obj.(*sm2Obj)
 		msg := gen.Fill(gen.Mix(seed, 101, uint64(g), uint64(i)), 50)
-		sig, err := o.priv.Sign(rnd(seed, g, i), msg, sm2.DefaultSM2SignerOpts)
+		var uid []byte // default identity for even calls, the shared one for odd calls
+		opts := sm2.DefaultSM2SignerOpts
+		if (g+i)%2 == 1 {
+			uid = o.uidA
+			opts = sm2.NewSM2SignerOption(true, o.uidA)
+		}
+		sig, err := o.priv.Sign(rnd(seed, g, i), msg, opts)
 		if err != nil {
 			return "", err
 		}
-		if !sm2.VerifyASN1WithSM2(o.pub, nil, msg, sig) {
+		if !sm2.VerifyASN1WithSM2(o.pub, uid, msg, sig) {
 			return "", fmt.Errorf("SM2 signature made concurrently does not verify")
 		}
 		return hx(sig), nil
@@ -183,11 +247,11 @@ var kindSM2 = kind{name: "sm2-key", setup: newSM2Obj, ops: []op{
 	{"key-exchange", false, func(obj any, g, i int, seed uint64) (string, error) {
 		o := obj.(*sm2Obj)
 		// the static keys are shared, the KeyExchange objects are per goroutine
-		a, err := sm2.NewKeyExchange(o.priv, o.peerPub, []byte("alice"), []byte("bob"), 32, true)
+		a, err := sm2.NewKeyExchange(o.priv, o.peerPub, o.uidA, o.uidB, 32, true)
 		if err != nil {
 			return "", err
 		}
-		b, err := sm2.NewKeyExchange(o.peer, o.pub, []byte("bob"), []byte("alice"), 32, true)
+		b, err := sm2.NewKeyExchange(o.peer, o.pub, o.uidB, o.uidA, 32, true)
 		if err != nil {
 			return "", err
 		}
@@ -218,6 +282,8 @@ type ecdhObj struct {
 	priv, eph *ecdh.PrivateKey
 	peer      *ecdh.PublicKey
 	peerEph   *ecdh.PublicKey
+	uidA      []byte
+	uidB      []byte
 }
 
 var kindECDH = kind{name: "ecdh-key", setup: func(seed uint64) any {
@@ -226,7 +292,7 @@ var kindECDH = kind{name: "ecdh-key", setup: func(seed uint64) any {
 		d[0] &= 0x7f
 		return must(ecdh.P256().NewPrivateKey(d))
 	}
-	o := &ecdhObj{priv: mk(1), eph: mk(2)}
+	o := &ecdhObj{priv: mk(1), eph: mk(2), uidA: shared([]byte("a")), uidB: shared([]byte("b"))}
 	// the peer's public keys come from bytes, computed with independent key objects
 	o.peer = must(ecdh.P256().NewPublicKey(mk(3).PublicKey().Bytes()))
 	o.peerEph = must(ecdh.P256().NewPublicKey(mk(4).PublicKey().Bytes()))
@@ -247,7 +313,7 @@ var kindECDH = kind{name: "ecdh-key", setup: func(seed uint64) any {
 		if err != nil {
 			return "", err
 		}
-		k, err := v.SM2SharedKey(false, 32, o.priv.PublicKey(), o.peer, []byte("a"), []byte("b"))
+		k, err := v.SM2SharedKey(false, 32, o.priv.PublicKey(), o.peer, o.uidA, o.uidB)
 		return hx(v.Bytes()) + "/" + hx(k), err
 	}},
 }}
@@ -257,12 +323,13 @@ type sm9SignObj struct {
 	pub    *sm9.SignMasterPublicKey
 	user   *sm9.SignPrivateKey
 	uid    []byte
+	uidB   []byte
 	hash   []byte
 	sig    []byte
 }
 
 var kindSM9Sign = kind{name: "sm9-sign-key", setup: func(seed uint64) any {
-	o := &sm9SignObj{uid: []byte("alice@c20")}
+	o := &sm9SignObj{uid: shared([]byte("alice@c20")), uidB: shared([]byte("bob"))}
 	o.master = must(sm9.GenerateSignMasterKey(gen.NewDetReader(gen.Mix(seed, 1))))
 	// a public key object of its own, parsed from bytes: cold caches
 	o.pub = must(sm9.UnmarshalSignMasterPublicKeyRaw(o.master.PublicKey().Bytes()))
@@ -270,8 +337,8 @@ var kindSM9Sign = kind{name: "sm9-sign-key", setup: func(seed uint64) any {
 	// signature made with an independent copy
 	m2 := must(sm9.GenerateSignMasterKey(gen.NewDetReader(gen.Mix(seed, 1))))
 	u2 := must(m2.GenerateUserKey(o.uid, 1))
-	o.hash = gen.Fill(gen.Mix(seed, 2), 32)
-	o.sig = must(sm9.SignASN1(gen.NewDetReader(seed+5), u2, o.hash))
+	o.hash = shared(gen.Fill(gen.Mix(seed, 2), 32))
+	o.sig = shared(must(sm9.SignASN1(gen.NewDetReader(seed+5), u2, o.hash)))
 	return o
 }, ops: []op{
 	{"sign", true, func(obj any, g, i int, seed uint64) (string, error) {
@@ -289,7 +356,7 @@ var kindSM9Sign = kind{name: "sm9-sign-key", setup: func(seed uint64) any {
 	{"verify", true, func(obj any, g, i int, seed uint64) (string, error) {
 		o := obj.(*sm9SignObj)
 		ok := sm9.VerifyASN1(o.pub, o.uid, 1, o.hash, o.sig)
-		bad := sm9.VerifyASN1(o.pub, []byte("bob"), 1, o.hash, o.sig)
+		bad := sm9.VerifyASN1(o.pub, o.uidB, 1, o.hash, o.sig)
 		return fmt.Sprint(ok, bad), nil
 	}},
 	{"verify-via-master", true, func(obj any, g, i int, seed uint64) (string, error) {
@@ -312,22 +379,28 @@ type sm9EncObj struct {
 	pub    *sm9.EncryptMasterPublicKey
 	user   *sm9.EncryptPrivateKey
 	peer   *sm9.EncryptPrivateKey
+	userKX *sm9.EncryptPrivateKey // hid 2 keys for the key exchange
+	peerKX *sm9.EncryptPrivateKey
 	uid    []byte
+	uidB   []byte
 	ct     []byte
 	key    []byte
 	wrap   []byte
 }
 
 var kindSM9Enc = kind{name: "sm9-encrypt-key", setup: func(seed uint64) any {
-	o := &sm9EncObj{uid: []byte("alice@c20")}
+	o := &sm9EncObj{uid: shared([]byte("alice@c20")), uidB: shared([]byte("bob@c20"))}
 	o.master = must(sm9.GenerateEncryptMasterKey(gen.NewDetReader(gen.Mix(seed, 1))))
 	o.pub = must(sm9.UnmarshalEncryptMasterPublicKeyRaw(o.master.PublicKey().Bytes()))
 	o.user = must(o.master.GenerateUserKey(o.uid, 3))
-	o.peer = must(o.master.GenerateUserKey([]byte("bob@c20"), 3))
+	o.peer = must(o.master.GenerateUserKey(o.uidB, 3))
+	o.userKX = must(o.master.GenerateUserKey(o.uid, 2))
+	o.peerKX = must(o.master.GenerateUserKey(o.uidB, 2))
 	m2 := must(sm9.GenerateEncryptMasterKey(gen.NewDetReader(gen.Mix(seed, 1))))
 	msg := gen.Fill(gen.Mix(seed, 2), 70)
-	o.ct = must(sm9.Encrypt(gen.NewDetReader(seed+5), m2.PublicKey(), o.uid, 3, msg, nil))
+	o.ct = shared(must(sm9.Encrypt(gen.NewDetReader(seed+5), m2.PublicKey(), o.uid, 3, msg, nil)))
 	o.key, o.wrap, _ = sm9.WrapKey(gen.NewDetReader(seed+6), m2.PublicKey(), o.uid, 3, 32)
+	o.wrap = shared(o.wrap)
 	return o
 }, ops: []op{
 	{"wrap", true, func(obj any, g, i int, seed uint64) (string, error) {
@@ -373,13 +446,14 @@ var kindSM9Enc = kind{name: "sm9-encrypt-key", setup: func(seed uint64) any {
 	}},
 	{"key-exchange", true, func(obj any, g, i int, seed uint64) (string, error) {
 		o := obj.(*sm9EncObj)
-		a := o.user.NewKeyExchange(o.uid, []byte("bob@c20"), 16, true)
-		b := o.peer.NewKeyExchange([]byte("bob@c20"), o.uid, 16, true)
-		rA, err := a.InitKeyExchange(rnd(seed, g, 2*i), 3)
+		// hid 2 here while wrap/encrypt use hid 3 on the same shared identities
+		a := o.userKX.NewKeyExchange(o.uid, o.uidB, 16, true)
+		b := o.peerKX.NewKeyExchange(o.uidB, o.uid, 16, true)
+		rA, err := a.InitKeyExchange(rnd(seed, g, 2*i), 2)
 		if err != nil {
 			return "", err
 		}
-		rB, sB, err := b.RespondKeyExchange(rnd(seed, g, 2*i+1), 3, rA)
+		rB, sB, err := b.RespondKeyExchange(rnd(seed, g, 2*i+1), 2, rA)
 		if err != nil {
 			return "", err
 		}
@@ -399,19 +473,30 @@ var kindSM9Enc = kind{name: "sm9-encrypt-key", setup: func(seed uint64) any {
 }}
 
 type sm4Obj struct {
-	block cipher.Block
-	gcm   cipher.AEAD
-	gcm13 cipher.AEAD
-	ccm   cipher.AEAD
-	key   []byte
+	block  cipher.Block
+	gcm    cipher.AEAD
+	gcm13  cipher.AEAD
+	ccm    cipher.AEAD
+	key    []byte
+	aad    []byte
+	nonce  []byte
+	sealed [3][]byte // one message per AEAD sealed under the shared nonce and aad
 }
 
 var kindSM4 = kind{name: "sm4-block-aead", setup: func(seed uint64) any {
-	o := &sm4Obj{key: gen.Fill(gen.Mix(seed, 1), 16)}
+	o := &sm4Obj{key: shared(gen.Fill(gen.Mix(seed, 1), 16))}
 	o.block = must(sm4.NewCipher(o.key))
 	o.gcm = must(cipher.NewGCM(o.block))
 	o.gcm13 = must(cipher.NewGCMWithTagSize(o.block, 13))
 	o.ccm = must(gmcipher.NewCCM(o.block))
+	o.aad = shared(gen.Fill(gen.Mix(seed, 2), 21))
+	o.nonce = shared(gen.Fill(gen.Mix(seed, 3), 12))
+	// sealed with an independent cipher object
+	b2 := must(sm4.NewCipher(o.key))
+	msg := gen.Fill(gen.Mix(seed, 4), 77)
+	for i, a := range []cipher.AEAD{must(cipher.NewGCM(b2)), must(cipher.NewGCMWithTagSize(b2, 13)), must(gmcipher.NewCCM(b2))} {
+		o.sealed[i] = shared(a.Seal(nil, o.nonce, msg, o.aad))
+	}
 	return o
 }, ops: []op{
 	{"block", false, func(obj any, g, i int, seed uint64) (string, error) {
@@ -466,6 +551,19 @@ var kindSM4 = kind{name: "sm4-block-aead", setup: func(seed uint64) any {
 				return "", fmt.Errorf("AEAD %T round trip failed under concurrency: %v", a, err)
 			}
 			res += hx(ct) + "/"
+		}
+		return res, nil
+	}},
+	{"open-shared", false, func(obj any, g, i int, seed uint64) (string, error) {
+		// every goroutine opens the same ciphertext slices with the same nonce and aad slices
+		o := obj.(*sm4Obj)
+		res := ""
+		for k, a := range []cipher.AEAD{o.gcm, o.gcm13, o.ccm} {
+			pt, err := a.Open(nil, o.nonce, o.sealed[k], o.aad)
+			if err != nil {
+				return "", fmt.Errorf("AEAD %T Open of a shared ciphertext failed under concurrency: %v", a, err)
+			}
+			res += hx(pt[:8]) + "/"
 		}
 		return res, nil
 	}},
@@ -718,10 +816,15 @@ func checkConcurrent(c ccase, r *h.Rec) error {
 	}
 	old := runtime.GOMAXPROCS(c.Procs)
 	defer runtime.GOMAXPROCS(old)
+	resetShared()
 	conc, err := runOps(k, k.setup(c.Seed), ops, c.Seed, true)
 	if err != nil {
 		return fmt.Errorf("concurrent run: %v", err)
 	}
+	if err := checkShared(); err != nil {
+		return fmt.Errorf("concurrent run: %v", err)
+	}
+	resetShared()
 	seq, err := runOps(k, k.setup(c.Seed), ops, c.Seed, false)
 	if err != nil {
 		return fmt.Errorf("HARNESS? sequential run failed: %v", err)
